@@ -352,3 +352,86 @@ def replay_file(path):
         print("VIOLATION property=%s replay=%s" % (rp["property"], path))
         return 1
     return 0
+
+
+def ni_constants(c, keep):
+    return {"Variant": VARIANT_CURRENT, "PairsId": '"%s"' % c["pairs"], "MaxCalls": c["calls"],
+            "MaxBatch": c["batch"], "TimeStepsId": '"%s"' % c.get("steps", "one"),
+            "AlphabetId": '"%s"' % c["alphabet"], "KeepHist": "TRUE" if keep else "FALSE"}
+
+
+def check_c10(prop, tier, seed, plan):
+    res = Result(prop, tier, seed)
+    wd = vlib.workdir("%s-%s" % (prop, tier))
+    vlib.build_harness()
+    p = plan[tier]
+    workers = p.get("workers", 8)
+    for i, c in enumerate(p["mc"]):
+        cfg = vlib.tlc_cfg("Spec", ni_constants(c, False), ["NonInterference", "SameRuntime"])
+        r = vlib.run_tlc("NonInterference", cfg, wd, "mc%d" % i, workers=workers, timeout=c.get("timeout", 1500))
+        log("[C10] MC pairs=%s alphabet=%s calls=%d batch=%d: %d states, %d distinct, %.1fs%s" % (
+            c["pairs"], c["alphabet"], c["calls"], c["batch"], r["states"], r["distinct"], r["wall"],
+            " VIOLATED " + r["violated"] if r["violated"] else ""))
+        if r["error"] or r["violated"] or r["distinct"] == 0:
+            raise ToolError("model checking of NonInterference failed (%s): %s" % (r["violated"] or r["error"], r["out"]))
+        res.states += r["distinct"]
+        res.transitions += r["states"]
+        res.mc_runs.append(dict(c, distinct=r["distinct"], generated=r["states"], wall_s=round(r["wall"], 1)))
+    traces = []
+    for i, c in enumerate(p["gen"]):
+        cfg = vlib.tlc_cfg("Spec", ni_constants(c, True), ["Emit"])
+        g = vlib.run_tlc("NonInterference", cfg, wd, "gen%d" % i, workers=workers, timeout=c.get("timeout", 1500))
+        if g["error"]:
+            raise ToolError("generation failed: %s" % g["out"])
+        cases = os.path.join(wd, "cases%d.ndjson" % i)
+        seen = set()
+        n = 0
+        with open(cases, "w") as f:
+            for payload in vlib.tlc_strings(g["out"], "REPLAY|"):
+                n += 1
+                h = hash(payload)
+                if h in seen:
+                    continue
+                seen.add(h)
+                f.write(payload + "\n")
+                if len(res.samples) < 2:
+                    hist = json.loads(payload)
+                    res.samples.append(dict(pos=hist[0]["pos"], x_states=len(hist[0]["X"]["states"]),
+                                            calls=[dict(t=c_["t"], evs=c_["evs"]) for c_ in hist[1:]]))
+        trace = os.path.join(wd, "pairgen%d.ndjson" % i)
+        pr = vlib.run_bin("fw_pair", ["--cases", cases, "--seed", seed, "--out", trace])
+        if pr.returncode != 0:
+            raise ToolError("fw_pair failed: %s" % pr.stdout[-2000:])
+        s = json.loads(pr.stdout.strip().splitlines()[-1])
+        log("[C10] GEN pairs=%s calls=%d batch=%d: %d behaviours, %d distinct input cases run solo and combined on the real code; differing=%d panics=%d" % (
+            c["pairs"], c["calls"], c["batch"], n, len(seen), s["cases_with_difference"], s["panics"]))
+        res.states += g["distinct"]
+        res.transitions += g["states"]
+        res.traces += len(seen)
+        res.evaluations += len(seen)
+        res.nontrivial += len(seen)
+        traces.append(("gen%d" % i, trace))
+    rp = p.get("rand")
+    if rp:
+        trace = os.path.join(wd, "pairrand.ndjson")
+        pr = vlib.run_bin("fw_pair", ["--random", rp["cases"], "--calls", rp["calls"], "--seed", seed, "--out", trace])
+        if pr.returncode != 0:
+            raise ToolError("fw_pair failed: %s" % pr.stdout[-2000:])
+        s = json.loads(pr.stdout.strip().splitlines()[-1])
+        log("[C10] RAND seed=%d: %d random (X, neighbours, position) cases, %d calls; differing=%d panics=%d" % (
+            seed, s["cases"], s["calls"], s["cases_with_difference"], s["panics"]))
+        res.traces += s["cases"]
+        res.evaluations += s["cases"]
+        res.nontrivial += s["cases"]
+        res.exhaustive = False
+        traces.append(("rand seed=%d" % seed, trace))
+    cfg = vlib.tlc_cfg("TSpec", {}).replace("CONSTANTS\n", "")
+    for name, trace in traces:
+        tv = vlib.trace_validate("NonInterferenceTrace", cfg, trace, wd, "tv" + name.split()[0])
+        if tv["incomplete"]:
+            raise ToolError("trace validation did not finish: %s" % tv["incomplete"])
+        for v in tv["verdicts"]:
+            if v["name"] in ("C10",):
+                res.violations.append(dict(source=name, id=v["id"], names=[v["name"]],
+                                           actual=scenario_lines(trace, v["id"])))
+    return finish(res, plan)
